@@ -790,6 +790,12 @@ func c07Instances(add func(*Instance), thorough bool) {
 					if (ka == 100 || kb == 100) && op != 6 && op != 2 {
 						tier = 1
 					}
+					if ka == 224 && kb == 220 && (op == 6 || op == 5) {
+						continue // run.ior(full run) adds the 65536 values one by one: outside the engine's step/memory budget
+					}
+					if ka == 224 && kb == 21 && (op == 8 || op == 4) {
+						tier = 1 // run andNot array: hundreds of paths with bitmap conversions
+					}
 					pp := with(win, "ak", 1, "akeys", 4, "acow", 0, "ac0", ka, "bk", 1, "bkeys", 4, "bcow", 0, "bc0", kb, "op", op, "mut", mut, "mk", 1, "pre", 0, "xb", 56, "xm", 15)
 					add(&Instance{Func: "VerifC07Op", Tier: tier, Params: pp})
 				}
